@@ -47,9 +47,37 @@ def enc_item(it):
     return "T" + ",".join(enc_val(v) for v in it)
 
 
+class NS:
+    """marker for a schedule that is an iterable but not a sequence; materialised freshly before every call
+    (a generator is consumed by the validation). kind: 'gen' (iterator), 'dict' (items are the keys), 'set'."""
+
+    def __init__(self, kind, items):
+        self.kind, self.items = kind, list(items)
+
+    def __repr__(self):
+        return f"NS({self.kind!r}, {self.items!r})"
+
+    def __eq__(self, other):
+        return isinstance(other, NS) and (self.kind, self.items) == (other.kind, other.items)
+
+    def make(self):
+        if self.kind == "gen":
+            return iter(list(self.items))
+        if self.kind == "dict":
+            return {it: 1 for it in self.items}
+        return set(self.items)
+
+
+def mat(ss):
+    """schedule list with the NS markers replaced by fresh real objects"""
+    return [x.make() if isinstance(x, NS) else x for x in ss] if isinstance(ss, list) else ss
+
+
 def enc_sched(s):
     if s is None or type(s) is int:
         return "!"
+    if isinstance(s, NS):
+        return {"gen": "G:", "dict": "D:", "set": "Z:"}[s.kind] + (";".join(enc_item(i) for i in s.items) if s.items else "-")
     s = list(s)
     return ";".join(enc_item(i) for i in s) if s else "-"
 
@@ -109,7 +137,11 @@ def pool(cfg):
          [("povm", 0), ("state", 0)], [("state", 0), ("povm", 0), ("povm", 0)], [("state", 0)], [], None,
          [("state", 0), ("gate", ng - 1), ("mprocess", 0), ("povm", 0), ("mprocess", 0)],
          # equal under == to p[0] (and hash-equal), but the index is not an int
-         [("state", 0), ("povm", 0.0)], [("state", False), ("povm", 0)], [("state", 0), ("povm", np.int64(0))]]
+         [("state", 0), ("povm", 0.0)], [("state", False), ("povm", 0)], [("state", 0), ("povm", np.int64(0))],
+         # iterables that are not sequences: generator / dict / set with fine items, with a malformed item, too short
+         NS("gen", [("state", 0), ("povm", 0)]), NS("dict", [("state", 0), ("povm", 0)]), NS("set", [("state", 0), ("povm", 0)]),
+         NS("gen", [("state", 0), ("povm", npv)]), NS("dict", [("state", 0), ("gate", ng), ("povm", 0)]),
+         NS("set", [("state", 0)]), NS("dict", [])]
     return p
 
 
@@ -119,8 +151,13 @@ def multi_lists(ctx):
     for cfg in cfgs:
         p = pool(cfg)
         for n in (0, 1, 2, 3):
-            for combo in itertools.product(p, repeat=n):
+            for combo in itertools.product(p[:14], repeat=n):
                 yield cfg, list(combo)
+        for ns in p[14:]:
+            yield cfg, [ns]
+            for other in p[:11]:
+                yield cfg, [other, ns]
+                yield cfg, [ns, other]
     # tuples / generators-as-lists / strings as schedules
     yield (1, 1, 0, 0), [(("state", 0), ("povm", 0))]
     yield (1, 1, 0, 0), ["ab"]
@@ -210,6 +247,14 @@ def expected(cfg_lens, schedules):
     for i, s in enumerate(schedules):
         if s is None or type(s) is int:
             return ("item", i, None, "non-iterable-schedule")
+        if isinstance(s, NS):
+            for j, it in enumerate(s.items):
+                r = item_defect(it, cfg_lens)
+                if r:
+                    return ("item", i, j, r)
+            if len(s.items) < 2:
+                return ("order", i, "too-short")
+            return ("sched", i, None, "non-sequence-schedule")   # must be rejected with either schedule error
         s = list(s)
         for j, it in enumerate(s):
             r = item_defect(it, cfg_lens)
@@ -236,6 +281,11 @@ def judge(ctx, site, got, exp, replay):
         ctx.violate(f"C20/{site}/{reason}/raises-{got[0] if got[0] != 'other' else got[1]}",
                     f"malformed schedule ({reason}) is not rejected with the schedule-item / schedule-order error but {got}", replay)
         return False
+    if exp[0] == "sched":
+        if got[1] != exp[1]:
+            ctx.violate(f"C20/{site}/wrong-error-position/{reason}", f"error reports schedule {got[1]}, expected {exp[1]}", replay)
+            return False
+        return True
     if got[0] != exp[0]:
         ctx.violate(f"C20/{site}/wrong-error-class/{reason}", f"expected the schedule-{exp[0]} error for {reason}, got {got}", replay)
         return False
@@ -456,8 +506,10 @@ def setter_ops(cfg):
         ops.append(("sched", [s]))
     ops.append(("sched", []))
     ops.append(("sched", [pool(cfg)[0], pool(cfg)[1]]))
-    for twin in pool(cfg)[11:]:
+    for twin in pool(cfg)[11:14]:
         ops.append(("sched", [pool(cfg)[0], twin]))
+    for ns in pool(cfg)[14:]:
+        ops.append(("sched", [ns]))
     return ops
 
 
@@ -470,7 +522,7 @@ def enc_op(op):
 def apply_op(e, op):
     if op[0] == "list":
         return exp_outcome(lambda: setattr(e, KW[op[1]], [None] * op[2]))
-    return exp_outcome(lambda: setattr(e, "schedules", op[1]))
+    return exp_outcome(lambda: setattr(e, "schedules", mat(op[1])))
 
 
 def setter_cases(ctx):
@@ -533,7 +585,7 @@ def correspondence(ctx):
             ctx.case(("order", ks))
     # (3) several schedules per list (first failing schedule decides, stale loop variable), via the constructor
     for cfg, ss in itertools.chain(multi_lists(ctx), ((c, [s]) for c, s in random_long(ctx, 3000 if ctx.quick else 30000))):
-        got = exp_outcome(lambda: Experiment(schedules=ss, **none_lists(cfg)))
+        got = exp_outcome(lambda: Experiment(schedules=mat(ss), **none_lists(cfg)))
         pend.append(("exp", (cfg, ss), got, drv.ask("exp", enc_cfg(cfg), enc_scheds(ss))))
         ctx.case(("multi", cfg, repr(ss)), nontrivial=bool(ss), sample={"op": "exp", "lists": cfg, "schedules": repr(ss)})
         ctx.count(f"schedule lists with {min(len(ss), 3)} schedules")
@@ -659,7 +711,7 @@ def oracle(ctx, volume=1):
         n += 1
     ctx.evaluations += n
     for cfg, ss in itertools.chain(multi_lists(ctx), ((c, [s]) for c, s in random_long(ctx, (3000 if ctx.quick else 30000) * volume))):
-        got = exp_outcome(lambda: Experiment(schedules=ss, **none_lists(cfg)))
+        got = exp_outcome(lambda: Experiment(schedules=mat(ss), **none_lists(cfg)))
         judge(ctx, "Experiment", got, expected(lens_of(cfg), ss), rp("exp", lists=cfg, schedules=ss))
         ctx.case(("o-multi", cfg, repr(ss)), nontrivial=bool(ss))
     # (b) setter histories: same rule against the would-be state; failing setter leaves the state unchanged
@@ -814,11 +866,11 @@ def search(ctx):
 def replay(ctx, data):
     r = data["replay"]
     print("replaying", r)
-    ev = lambda s: eval(s, {"np": np, "__builtins__": {}})  # reprs written by this harness only
+    ev = lambda s: eval(s, {"np": np, "NS": NS, "__builtins__": {}})  # reprs written by this harness only
     before = len(ctx.violations)
     if r["kind"] == "exp":
         cfg, ss = tuple(r["lists"]), ev(r["schedules"])
-        got = exp_outcome(lambda: Experiment(schedules=ss, **none_lists(cfg)))
+        got = exp_outcome(lambda: Experiment(schedules=mat(ss), **none_lists(cfg)))
         exp = expected(lens_of(cfg), ss)
         print("implementation:", got, "| rule:", exp)
         judge(ctx, "Experiment", got, exp, r)
